@@ -234,6 +234,8 @@ def mk_reg(kind):
         return Register({"q1": (7.0, 0.0), "q2": (-1.0, 9.0), "q0": (0.0, 0.0)})
     if kind == "cube3":
         return Register3D({"q0": (0.0, 0.0, 0.0), "q1": (5.0, 0.0, 3.0), "q2": (0.0, 6.0, -4.0)})
+    if kind == "intperm3":  # integer labels that are a non-identity permutation of the positions 0..2
+        return Register({2: (0.0, 0.0), 0: (7.0, 0.0), 1: (2.0, 6.0)})
     if kind == "virt3":
         return Register({"q0": (0.0, 0.0), "q1": (6.0, 0.0), "q2": (0.0, 9.0)})
     raise ValueError(kind)
@@ -330,7 +332,9 @@ PROGRAMS = {
         ["delay", "g", 8],
         ["add_eom", "g", 12, 0.29],
         ["disable_eom", "g"],
-        ["add", "l", ["cp", 5, A("a1"), D("d1"), 0.66], "no-delay"]]),
+        # (l goes on long after g has left EOM mode and fallen silent)
+        ["add", "l", ["cp", 5, A("a1"), D("d1"), 0.66], "no-delay"],
+        ["add", "l", ["cp", 40, A("a2"), DN("d2"), 1.66]]]),
     # two local channels drive two atoms at the same time with the SAME envelope (same amplitude / detuning variables)
     # but different phases
     "two_local_same_env": dict(device="mock", reg="tri3", prog=[
@@ -340,6 +344,12 @@ PROGRAMS = {
         ["add", "l1", ["cp", 8, 1.0, 0.5, 1.7], "no-delay"],
         ["add", "l2", ["cp", 8, A("a0"), D("d0"), 2.9], "no-delay"],
         ["add", "l2", ["cp", 6, A("a1"), D("d1"), 1.1]]]),
+    # integer atom labels 2, 0, 1 (label != position in the register)
+    "int_labels": dict(device="mock", reg="intperm3", prog=[
+        ["declare", "l", "rydberg_local", 0], ["declare", "g", "rydberg_global"],
+        ["add", "l", ["cp", 6, A("a0"), D("d0"), 0.7]],
+        ["target", "l", 2], ["add", "l", ["cp", 5, A("a1"), D("d1"), 1.9]],
+        ["add", "g", ["cp", 6, A0("a2"), D("d2"), 2.4]]]),
     # nothing but idle time: no basis is "used", the emulator falls back to the ground-rydberg pair
     "idle": dict(device="mock", reg="line2", prog=[
         ["declare", "g", "rydberg_global"], ["delay", "g", 12]]),
@@ -355,7 +365,7 @@ PROGRAMS = {
         ["target", "l", ["q0", "q1"]],
         ["add", "l", ["pulse", ["custom", [A0("c0"), A0("c1"), A0("c2"), A0("c3")]], ["const", 4, D("d2")], 3.9]]]),
 }
-QUICK = ["idle", "two_local_same_env", "ising_all", "digital", "perm", "dmm", "dmm_first", "slm_ising", "xy_slm", "two_glob", "glob_then_local", "eom"]
+QUICK = ["idle", "int_labels", "two_local_same_env", "ising_all", "digital", "perm", "dmm", "dmm_first", "slm_ising", "xy_slm", "two_glob", "glob_then_local", "eom"]
 
 BASIS_AB = {"ground-rydberg": ("r", "g"), "digital": ("g", "h"), "XY": ("u", "d")}  # (|b>, |a>): |b> = (1,0), |a> = (0,1)
 
